@@ -219,6 +219,7 @@ func (s *stickyBalanceStrategy) Plan(members map[string]ConsumerGroupMemberMetad
 	}
 	var unassignedPartitions []topicPartitionAssignment
 	for memberID, partitions := range currentAssignment {
+		verifPoint("sticky.iter.plan.current", memberID)
 		var keepPartitions []topicPartitionAssignment
 		for _, partition := range partitions {
 			// If this partition no longer exists at all, likely due to the
@@ -238,6 +239,7 @@ func (s *stickyBalanceStrategy) Plan(members map[string]ConsumerGroupMemberMetad
 		currentAssignment[memberID] = keepPartitions
 	}
 	for unvisited := range unvisitedPartitions {
+		verifPoint("sticky.iter.plan.unvisited", unvisited.Topic, unvisited.Partition)
 		unassignedPartitions = append(unassignedPartitions, unvisited)
 	}
 
@@ -718,6 +720,7 @@ func sortPartitions(currentAssignment map[string][]topicPartitionAssignment, par
 		}
 
 		for partition := range unassignedPartitions {
+			verifPoint("sticky.iter.sort.unassigned", partition.Topic, partition.Partition)
 			sortedPartitions = append(sortedPartitions, partition)
 		}
 	} else {
@@ -775,6 +778,7 @@ func deepCopyAssignment(assignment map[string][]topicPartitionAssignment) map[st
 func areSubscriptionsIdentical(partition2AllPotentialConsumers map[topicPartitionAssignment][]string, consumer2AllPotentialPartitions map[string][]topicPartitionAssignment) bool {
 	curMembers := make(map[string]int)
 	for _, cur := range partition2AllPotentialConsumers {
+		verifPoint("sticky.iter.identical.partitions", cur)
 		if len(curMembers) == 0 {
 			for _, curMembersElem := range cur {
 				curMembers[curMembersElem]++
@@ -800,6 +804,7 @@ func areSubscriptionsIdentical(partition2AllPotentialConsumers map[topicPartitio
 
 	curPartitions := make(map[topicPartitionAssignment]int)
 	for _, cur := range consumer2AllPotentialPartitions {
+		verifPoint("sticky.iter.identical.members", cur)
 		if len(curPartitions) == 0 {
 			for _, curPartitionElem := range cur {
 				curPartitions[curPartitionElem]++
@@ -835,6 +840,7 @@ func prepopulateCurrentAssignments(members map[string]ConsumerGroupMemberMetadat
 	// for each partition we create a sorted map of its consumers by generation
 	sortedPartitionConsumersByGeneration := make(map[topicPartitionAssignment]map[int]string)
 	for memberID, meta := range members {
+		verifPoint("sticky.iter.prepop.members", memberID)
 		consumerUserData, err := deserializeTopicPartitionAssignment(meta.UserData)
 		if err != nil {
 			return nil, nil, err
@@ -866,6 +872,7 @@ func prepopulateCurrentAssignments(members map[string]ConsumerGroupMemberMetadat
 	// prevAssignment holds the prior ConsumerGenerationPair (before current) of each partition
 	// current and previous consumers are the last two consumers of each partition in the above sorted map
 	for partition, consumers := range sortedPartitionConsumersByGeneration {
+		verifPoint("sticky.iter.prepop.partitions", partition.Topic, partition.Partition)
 		// sort consumers by generation in decreasing order
 		var generations []int
 		for generation := range consumers {
@@ -982,6 +989,7 @@ func (p *partitionMovements) getTheActualPartitionToBeMoved(partition topicParti
 	for otherPartition := range partitionMovementsForThisTopic[reversePair] {
 		reversePairPartition = otherPartition
 	}
+	verifPoint("sticky.pick", reversePairPartition.Topic, reversePairPartition.Partition)
 	return reversePairPartition
 }
 
